@@ -289,6 +289,7 @@ theorem handleReq_rt (cfg : Cfg) (R : RespTab) (c : Conn) (H : Nat → Nat)
     · exact fun r => by simpa [hold1] using hr r
   · exact (replyPre_rt cfg R c _ _ _ H hr).1
   · exact fun r => by simpa [hold1] using hr r
+  · exact (replyPre_rt cfg R { c with inClose := true } _ _ _ H (fun r => by simpa [hold1] using hr r)).1
   · split
     · exact (runReply_rt R R _ _ true H (fun r => by simpa [hold1] using hr r) id).1
     · exact fun r => by simpa [hold1] using hr r
@@ -303,6 +304,7 @@ theorem handleReq_rfree (cfg : Cfg) (R : RespTab) (c : Conn) (H : Nat → Nat)
     · simp [RFree]
   · exact (replyPre_rt cfg R c _ _ _ H hr).2 hf
   · exact hf
+  · exact (replyPre_rt cfg R { c with inClose := true } _ _ _ H (fun r => by simpa [hold1] using hr r)).2 hf
   · split
     · exact (runReply_rt R R _ _ true H (fun r => by simpa [hold1] using hr r) id).2 hf
     · exact hf
